@@ -268,13 +268,80 @@ fn record(case: &Case, rep: &mut Report) {
     }
 }
 
+fn concurrent_programs() -> Vec<(crate::sched::Program, crate::props::e1::Mode)> {
+    use crate::props::e1::{self, api, planted, Mode};
+    use crate::sched::POp;
+    use crate::world::Size;
+    let k = e1::key1();
+    let mut out = Vec::new();
+    let s0 = ops::shard_dir_name(0);
+    let s1 = ops::shard_dir_name(1);
+    for (front, cfg, locs) in [
+        ("plain", e1::plain_cfg(1 << 40), vec!["k".to_string()]),
+        ("sharded", e1::sharded_cfg(1 << 40), vec![format!("{}/k", s0), format!("{}/k", s1)]),
+    ] {
+        for loc in &locs {
+            let pre = vec![planted(loc, Val::new(0, Size::Five), false, 3)];
+            let tag = if loc.contains(&s1) { "secondary" } else { "primary" };
+            let mut add = |name: &str, other: Vec<POp>| {
+                out.push((
+                    crate::sched::Program {
+                        name: format!("lookup-{}-{}-{}", front, tag, name),
+                        cfg: cfg.clone(),
+                        pre: pre.clone(),
+                        threads: e1::own_handles(vec![vec![api(Op::Get(k.clone())), api(Op::Touch(k.clone()))], other], false),
+                        create_write_dir: true,
+                    },
+                    Mode::Bounded(2),
+                ));
+            };
+            add("set", vec![api(Op::Set(k.clone(), e1::wval(1, 0, Size::One)))]);
+            add("deleter", vec![POp::Unlink(loc.clone())]);
+        }
+    }
+    out
+}
+
+fn concurrent_check(x: &crate::sched::Execution) -> Vec<(String, String)> {
+    let mut bad = Vec::new();
+    let wroot = x.root.join("w").to_string_lossy().into_owned();
+    // thread 0 does the lookups: per operation, open attempts (get) / distinct files probed (touch) in the cache directory
+    for r in x.history.iter().filter(|r| r.tid == 0) {
+        let is_touch = matches!(&r.op, crate::sched::POp::Api(Op::Touch(_)));
+        let mut n = 0;
+        let mut seen: std::collections::BTreeSet<String> = Default::default();
+        for e in x.trace.iter().filter(|e| e.tid == 0 && e.op as usize == r.idx && e.kind == Kind::Open) {
+            if let Some(p) = &e.path {
+                if p.starts_with(&wroot) && !p.contains("/.kismet_temp/") {
+                    if is_touch && !seen.insert(p.clone()) {
+                        continue;
+                    }
+                    n += 1;
+                }
+            }
+        }
+        if n > 2 {
+            bad.push((
+                "too-many-opens-under-race".into(),
+                format!("t0 {} made {} open attempts in one cache directory while a peer was replacing/removing the entry", r.op.label(), n),
+            ));
+        }
+        if x.trace.iter().any(|e| e.tid == 0 && e.op as usize == r.idx && matches!(e.kind, Kind::Readdir | Kind::Opendir | Kind::Lock)) {
+            bad.push(("lookup-lists-or-locks".into(), format!("t0 {} listed a directory or took a lock", r.op.label())));
+        }
+    }
+    bad
+}
+
 pub fn run(_tier: Tier, shard: Shard, rep: &mut Report) {
     rep.rule = "operation scenario {get hit/miss/hit in the last level, touch hit/miss, set new/existing, put insert/hit, ensure \
         hit/miss/promote, set_temp_file, and get/touch/ensure with the key present in every level} x write front-end {plain, sharded(3)} x stack depth 1-3 x checker {off, on} with every \
         directory pre-populated with 0, 10, 100 and 2000 entries (maintenance scripted not to fire): per-kind call counts identical \
         across the four sizes, no readdir, <= 2 open attempts per cache directory per lookup, peak simultaneously open \
         files + directory streams <= 2 (3 with a checker) from the intercepted open/close stream, nothing left open afterwards \
-        (shim fd table and /proc/self/fd), no locking call. Every case is non-trivial (4 sizes compared)."
+        (shim fd table and /proc/self/fd), no locking call. Plus, under concurrency: get and touch racing with a set of the same key or with a deleter (all schedules \
+        with <= 2 preemptions, entry in the primary or the secondary shard): still at most two open attempts per cache directory, \
+        no listing, no lock. Every case is non-trivial (4 sizes compared)."
         .into();
     rep.assumptions = vec![
         "descriptors the scenario itself holds (the application's source temp file) are not attributed to the library".into(),
@@ -302,8 +369,17 @@ pub fn run(_tier: Tier, shard: Shard, rep: &mut Report) {
     }
     rep.fact("cells_total", json!(no));
     let _: Option<Ev> = None;
+    let progs = concurrent_programs();
+    let mut chk = |_pi: usize, x: &crate::sched::Execution| concurrent_check(x);
+    crate::props::e1::explore_all("C20", &progs, shard, rep, &|_| crate::sched::RunOpts::default(), &mut chk, 500_000);
 }
 
 pub fn replay(case: &Value, rep: &mut Report) {
+    if case.get("program").is_some() {
+        let progs: Vec<crate::sched::Program> = concurrent_programs().into_iter().map(|p| p.0).collect();
+        let mut chk = |x: &crate::sched::Execution| concurrent_check(x);
+        crate::props::e1::replay_case("C20", &progs, case, rep, &|| crate::sched::RunOpts::default(), &mut chk);
+        return;
+    }
     record(&Case::from_json(case), rep);
 }
